@@ -115,6 +115,19 @@ def body(H, case):
     H.prove("covariant pattern symmetric", all((j, i) in set(patA) for (i, j) in patA))
     # covariant Laplacian reduces to the scalar one at zero phase: same pattern
     H.prove("covariant pattern = scalar pattern", patA == pat)
+    # the operators *in use* after an in-place refresh (MeshOperators.set_link_exponents called
+    # again with the new potential) obey the same identities
+    from tdgl.solver.options import SparseSolver
+
+    theta0 = H.array([H.phase(f"th0_{e}") for e in range(ne)])
+    mo = ops.MeshOperators(mesh, SparseSolver.SUPERLU, fixed_sites=np.array([], dtype=np.int64), fix_psi=True)
+    mo.set_link_exponents(K.link_exponents_for(H, mesh, theta0))  # build
+    mo.set_link_exponents(Alink)  # refresh in place
+    LR = mo.psi_laplacian
+    H.prove("refreshed covariant pattern = built pattern", K.pattern(LR) == patA)
+    for (i, j) in patA:
+        if i <= j:
+            H.prove_eq(f"refreshed: a_i LA_ij = conj(a_j LA_ji) [{i},{j}]", areas[i] * K.entry(LR, i, j), K.conj(areas[j] * K.entry(LR, j, i)))
     # covariant gradient row structure: (GA psi)_e = (U_e psi_j - psi_i)/e_e
     psi = H.cplxs("p", ns)
     GApsi = K.elems(GA @ psi)
